@@ -37,7 +37,8 @@ type aesApp struct{ key, in, out []byte }
 var (
 	aesEncLog, aesDecLog []aesApp
 	// AESAxioms makes the model assert the permutation axioms D(E(x)) = x, E(D(y)) = y as
-	// solver constraints in addition to the syntactic inverse shortcut. Off by default: the
+	// solver constraints for every application made after it is set (so E_k and D_k are
+	// injective), in addition to the syntactic inverse shortcut. Off by default: most
 	// modes in this tree only ever invert blocks they literally produced.
 	AESAxioms bool
 )
@@ -54,7 +55,7 @@ func (b *AESBlock) EncryptBlock(x []byte) []byte {
 		}
 	}
 	y := verifrt.UF("AESE", 16, b.key, x)
-	if AESAxioms && len(aesDecLog) > 0 {
+	if AESAxioms {
 		verifrt.AssumeEq(verifrt.UF("AESD", 16, b.key, y), x)
 	}
 	aesEncLog = append(aesEncLog, aesApp{b.key, x, y})
@@ -72,11 +73,6 @@ func (b *AESBlock) DecryptBlock(y []byte) []byte {
 	x := verifrt.UF("AESD", 16, b.key, y)
 	if AESAxioms {
 		verifrt.AssumeEq(verifrt.UF("AESE", 16, b.key, x), y)
-	}
-	if AESAxioms && len(aesDecLog) == 0 {
-		for _, a := range aesEncLog {
-			verifrt.AssumeEq(verifrt.UF("AESD", 16, a.key, a.out), a.in)
-		}
 	}
 	aesDecLog = append(aesDecLog, aesApp{b.key, y, x})
 	return x
@@ -167,10 +163,10 @@ func (h *Hash) digest() []byte {
 	msg := append([]byte{}, h.buf...)
 	var out []byte
 	if h.key != nil {
-		out = verifrt.UFInj("HMAC_"+h.name, h.size, h.key, msg)
+		out = verifrt.UF("HMAC_"+h.name, h.size, h.key, msg)
 		logMAC(h.key, msg, out)
 	} else {
-		out = verifrt.UFInj("HASH_"+h.name, h.size, msg)
+		out = verifrt.UF("HASH_"+h.name, h.size, msg)
 	}
 	return out
 }
@@ -207,10 +203,34 @@ func HMACNew(h func() hash.Hash, key []byte) hash.Hash {
 	return &Hash{name: inner.name, size: inner.size, block: inner.block, key: k}
 }
 
+// HMACEqual models crypto/hmac.Equal. Byte equality, except for the unforgeability
+// idealisation: once AdversaryPhase() has been called, a MAC computed over a message that
+// no honest computation has MACed under that key never equals the untrusted candidate.
+//
 //verif:intercept crypto/hmac.Equal
-func HMACEqual(a, b []byte) bool { return verifrt.EqBytes(a, b) }
+func HMACEqual(a, b []byte) bool {
+	eq := verifrt.EqBytes(a, b)
+	for _, r := range macLog {
+		if r.honest {
+			continue
+		}
+		hit := (len(a) <= len(r.out) && verifrt.SameBytes(a, r.out[:len(a)])) || (len(b) <= len(r.out) && verifrt.SameBytes(b, r.out[:len(b)]))
+		if !hit {
+			continue
+		}
+		fresh := true
+		for _, h := range macLog {
+			if !h.honest {
+				continue
+			}
+			fresh = verifrt.And(fresh, verifrt.Not(verifrt.And(verifrt.EqBytes(h.key, r.key), verifrt.EqBytes(h.msg, r.msg))))
+		}
+		eq = verifrt.And(eq, verifrt.Not(fresh))
+	}
+	return eq
+}
 
-// MAC log for the unforgeability idealisation (see NoForgery).
+// MAC log for the unforgeability idealisation.
 type macRec struct {
 	key, msg, out []byte
 	honest        bool
@@ -226,26 +246,6 @@ func logMAC(key, msg, out []byte) {
 // AdversaryPhase marks everything computed from now on as triggered by untrusted input.
 func AdversaryPhase() { adversary = true }
 
-// NoForgery states the Dolev-Yao idealisation for MACs: the untrusted tag does not
-// equal the (truncated) MAC of any message that no honest computation has MACed under
-// that key. It must be called after the operation under test, with the tag bytes the
-// documented format places in the untrusted input.
-func NoForgery(tag []byte) {
-	for _, r := range macLog {
-		if r.honest || len(r.out) < len(tag) {
-			continue
-		}
-		fresh := true
-		for _, h := range macLog {
-			if !h.honest {
-				continue
-			}
-			fresh = verifrt.And(fresh, verifrt.Not(verifrt.And(verifrt.EqBytes(h.key, r.key), verifrt.EqBytes(h.msg, r.msg))))
-		}
-		verifrt.Assume(verifrt.Not(verifrt.And(fresh, verifrt.EqBytes(tag, r.out[:len(tag)]))))
-	}
-}
-
 // ---------------------------------------------------------------- ideal nonce-based AEADs
 
 // AEAD is an ideal nonce-based AEAD: Seal(n,p,a) = ENC_k(n,p) || TAG_k(n,a,ENC), with
@@ -259,7 +259,7 @@ type AEAD struct {
 }
 
 type sealRec struct {
-	key, nonce, ad, ct, tag []byte
+	key, nonce, ad, ct, tag, pt []byte
 }
 
 var sealLog []sealRec
@@ -291,15 +291,18 @@ func (a *AEAD) Seal(dst, nonce, plaintext, additionalData []byte) []byte {
 	}
 	n := append([]byte{}, nonce...)
 	ad := append([]byte{}, additionalData...)
-	ct := a.enc(n, append([]byte{}, plaintext...))
-	tag := verifrt.UFInj("TAG_"+a.alg, a.tagSize, a.key, n, ad, ct)
-	sealLog = append(sealLog, sealRec{key: a.key, nonce: n, ad: ad, ct: ct, tag: tag})
+	pt := append([]byte{}, plaintext...)
+	ct := a.enc(n, pt)
+	tag := verifrt.UF("TAG_"+a.alg, a.tagSize, a.key, n, ad, ct)
+	sealLog = append(sealLog, sealRec{key: a.key, nonce: n, ad: ad, ct: ct, tag: tag, pt: pt})
 	out := append(dst, ct...)
 	return append(out, tag...)
 }
 
 var errOpen = errors.New("cipher: message authentication failed")
 
+// Open is the ideal functionality: it succeeds iff (key, nonce, ad, ciphertext, tag) is
+// exactly one of the tuples Seal produced on this path, and then returns that plaintext.
 func (a *AEAD) Open(dst, nonce, ciphertext, additionalData []byte) ([]byte, error) {
 	if len(nonce) != a.nonceSize {
 		panic("crypto/cipher: incorrect nonce length given to " + a.alg)
@@ -307,21 +310,15 @@ func (a *AEAD) Open(dst, nonce, ciphertext, additionalData []byte) ([]byte, erro
 	if len(ciphertext) < a.tagSize {
 		return nil, errOpen
 	}
-	n := append([]byte{}, nonce...)
-	ad := append([]byte{}, additionalData...)
-	ct := append([]byte{}, ciphertext[:len(ciphertext)-a.tagSize]...)
+	ct := ciphertext[:len(ciphertext)-a.tagSize]
 	tag := ciphertext[len(ciphertext)-a.tagSize:]
-	want := verifrt.UFInj("TAG_"+a.alg, a.tagSize, a.key, n, ad, ct)
-	if !verifrt.EqBytes(tag, want) {
-		return nil, errOpen
-	}
-	// unforgeability: a matching tag must stem from a Seal of exactly this (key, nonce, ad, ct)
-	known := false
 	for _, r := range sealLog {
-		known = verifrt.Or(known, verifrt.And(verifrt.And(verifrt.EqBytes(r.key, a.key), verifrt.EqBytes(r.nonce, n)), verifrt.And(verifrt.EqBytes(r.ad, ad), verifrt.EqBytes(r.ct, ct))))
+		same := verifrt.And(verifrt.And(verifrt.EqBytes(r.key, a.key), verifrt.EqBytes(r.nonce, nonce)), verifrt.And(verifrt.EqBytes(r.ad, additionalData), verifrt.And(verifrt.EqBytes(r.ct, ct), verifrt.EqBytes(r.tag, tag))))
+		if same {
+			return append(dst, r.pt...), nil
+		}
 	}
-	verifrt.Assume(known)
-	return append(dst, a.dec(n, ct)...), nil
+	return nil, errOpen
 }
 
 //verif:intercept crypto/cipher.NewGCM
